@@ -368,6 +368,20 @@ func (w *World) sectionOf(e *Expr, depth int) string {
 			}
 			return w.sectionOf(e.Args[0], depth+1)
 		}
+		// a key builder reached through a function value that is known after instantiation (a descriptor's field)
+		if e.Name == "dyn" && e.Callee == nil && len(e.Args) > 0 && e.Args[0].Op == "func" && e.Args[0].Callee != nil {
+			ne := *e
+			ne.Name, ne.Callee, ne.Args = e.Args[0].Name, w.unwrap(e.Args[0].Callee), e.Args[1:]
+			if ne.Callee != nil && w.inSet[ne.Callee] {
+				if in := w.Inline(&ne); in != nil {
+					return w.sectionOf(in, depth+1)
+				}
+			}
+		}
+		// encoding/binary's appending encoders (binary.BigEndian.AppendUint64(key, v)): the key starts with what is appended to
+		if strings.Contains(e.Name, "encoding/binary.") && strings.Contains(e.Name, ").Append") && len(e.Args) == 3 {
+			return w.sectionOf(e.Args[1], depth+1)
+		}
 		if e.Callee != nil {
 			if in := w.Inline(e); in != nil {
 				return w.sectionOf(in, depth+1)
